@@ -14,7 +14,7 @@ MUTS = ["null_elem", "set_raw", "empty_idx"]
 
 def diag_of(rec, ex):
     return {"op": rec.get("e"), "ptr": rec.get("ptr"), "f": rec.get("f"), "ret": rec.get("ret"), "errno": rec.get("errno"),
-            "node": rec.get("node"), "same": rec.get("same")}
+            "node": rec.get("node"), "same": rec.get("same"), "k": rec.get("k"), "site": rec.get("site"), "leak": rec.get("leak")}
 
 
 def run(ck):
